@@ -32,6 +32,8 @@ const rule = "case = environment in {development, production, test} x Recovery p
 var assumptions = []string{
 	"panic values are non-nil (statement)",
 	"the process-global environment (SetEnv) is set per case; cases run one at a time in a process",
+	"'the client gets status 500' includes what the framework's own writer reports: a middleware in front of Recovery that reads ResponseWriter().Status() after Next() reads the status the client got",
+	"a chain in which nothing panics answers what its handlers wrote (the interpreter's reading of Next / cancellation is C03's; such cases serve as the healthy baseline here)",
 }
 
 func TestMain(m *testing.M) {
@@ -73,6 +75,11 @@ type Case struct {
 	// (Accept: application/json), "upgrade" (Connection: Upgrade, Upgrade: websocket),
 	// "accept-html".
 	ReqHdr string `json:"request_headers,omitempty"`
+	// OuterWrites: the outermost recording middleware sends status 202 and the
+	// bytes "pre;" before it calls Next(): a status has been sent by then.
+	OuterWrites bool `json:"outer_writes,omitempty"`
+	// Twice: Recovery is installed twice in a row.
+	Twice bool `json:"recovery_twice,omitempty"`
 }
 
 // plainWriter is the usual embedding wrapper: http.ResponseWriter and nothing else.
@@ -257,8 +264,11 @@ func (m *sim) run() {
 	}
 }
 
-func simulate(hs []H) (m *sim) {
+func simulate(hs []H, outerWrote bool) (m *sim) {
 	m = &sim{hs: hs}
+	if outerWrote {
+		m.write(202, "pre;")
+	}
 	defer func() {
 		if r := recover(); r != nil {
 			sp, ok := r.(simPanic)
@@ -288,6 +298,10 @@ func build(c Case) *app {
 		k := k
 		a.f.Use(func(ctx flamego.Context) {
 			a.log = append(a.log, fmt.Sprintf("pre %d", k))
+			if k == 0 && c.OuterWrites {
+				ctx.ResponseWriter().WriteHeader(202)
+				_, _ = ctx.ResponseWriter().Write([]byte("pre;"))
+			}
 			ctx.Next()
 			a.log = append(a.log, fmt.Sprintf("post %d", k))
 			// what a logging middleware would read once Next() is back
@@ -366,9 +380,13 @@ func build(c Case) *app {
 		a.f.Action(hs[len(hs)-1])
 		hs = hs[:len(hs)-1]
 	}
+	rec := []flamego.Handler{flamego.Recovery()}
+	if c.Twice {
+		rec = append(rec, flamego.Recovery())
+	}
 	switch c.RecoveryAt {
 	case "use":
-		a.f.Use(flamego.Recovery())
+		a.f.Use(rec...)
 		if c.Site == "notfound" {
 			a.f.NotFound(hs...) // "/p" is not registered: the chain is the not-found chain
 		} else {
@@ -379,10 +397,10 @@ func build(c Case) *app {
 		a.f.Group("/g", func() {
 			a.f.Routes("/p", "GET,HEAD", hs...)
 			a.f.Routes("/ok", "GET,HEAD", ok)
-		}, flamego.Recovery())
+		}, rec...)
 	case "route":
-		a.f.Routes("/p", "GET,HEAD", append([]flamego.Handler{flamego.Recovery()}, hs...)...)
-		a.f.Routes("/ok", "GET,HEAD", flamego.Recovery(), ok)
+		a.f.Routes("/p", "GET,HEAD", append(append([]flamego.Handler{}, rec...), hs...)...)
+		a.f.Routes("/ok", "GET,HEAD", append(append([]flamego.Handler{}, rec...), ok)...)
 	}
 	return a
 }
@@ -480,14 +498,31 @@ func checkCase(c Case) (out evid.Outcome) {
 			}
 		}
 	}
-	want := simulate(hs)
+	outerWrote := c.OuterWrites && c.Outer > 0
+	if outerWrote && c.WrapWriter {
+		// the re-mapping handler comes first and the response is written already
+		// when it returns: none of the later handlers is started
+		hs = nil
+	}
+	want := simulate(hs, outerWrote)
+	if outerWrote {
+		out.NonTrivial = true
+		out.Classes = append(out.Classes, "status-sent-by-outer-middleware")
+	}
+	if c.Twice {
+		out.Classes = append(out.Classes, "recovery-twice")
+	}
 	method := c.Method
 	if method == "" {
 		method = "GET"
 	}
 	head := method == "HEAD"
 	fresh := serveM(freshApp, method, c.path("ok"))
-	if fresh.escaped != nil || fresh.status != 200 || (fresh.body != "ok" && !head) {
+	okStatus, okBody := 200, "ok"
+	if outerWrote {
+		okStatus, okBody = 202, "pre;ok"
+	}
+	if fresh.escaped != nil || fresh.status != okStatus || (fresh.body != okBody && !(head && fresh.body == "")) {
 		return evid.Fail("healthy-baseline", "a fresh instance answers the healthy route with %+v", fresh)
 	}
 	sawPanic := false
@@ -513,11 +548,11 @@ func checkCase(c Case) (out evid.Outcome) {
 			}
 			continue
 		}
-		if head {
-			want.body = "" // HEAD forwards no body bytes
-		}
+		// (who drops the body bytes of a HEAD response is C13's business: nothing
+		// at all, or what GET would get, are both taken)
+		headSwallowed := head && got.body == ""
 		if want.panicked == "" {
-			if got.status != want.status || got.body != want.body {
+			if got.status != want.status || (got.body != want.body && !headSwallowed) {
 				return fail(out, "no-panic-response", "response %d %q, the handlers wrote %d %q; %s", got.status, got.body, want.status, want.body, desc)
 			}
 			out.Classes = append(out.Classes, "no-panic")
@@ -544,23 +579,25 @@ func checkCase(c Case) (out evid.Outcome) {
 		if got.status != wantStatus {
 			return fail(out, "status", "status %d, want %d (status sent before the panic: %d); %s", got.status, wantStatus, want.status, desc)
 		}
-		if !strings.HasPrefix(got.body, want.body) {
-			return fail(out, "body-prefix", "body %q does not start with the bytes written before the panic %q; %s", clip(got.body), want.body, desc)
-		}
-		tail := got.body[len(want.body):]
-		if head {
-			if tail != "" {
-				return fail(out, "head-body", "HEAD request got a body %q; %s", clip(tail), desc)
-			}
+		if headSwallowed {
 			out.NonTrivial = true
 			out.Classes = append(out.Classes, "head")
 			continue
 		}
+		if !strings.HasPrefix(got.body, want.body) {
+			return fail(out, "body-prefix", "body %q does not start with the bytes written before the panic %q; %s", clip(got.body), want.body, desc)
+		}
+		tail := got.body[len(want.body):]
 		// "panic detail appears in the body only in development mode": the
 		// statement does not fix the wording of either page, so only the presence
 		// / absence of the detail (the rendered value, stack frames) is checked
 		token := panicToken(want.panicked)
-		if c.Env == "development" {
+		if c.EnvAtBuild != "" && c.EnvAtBuild != c.Env && (c.Env == "development" || c.EnvAtBuild == "development") {
+			// the mode was switched between construction and this request, one of
+			// the two being development: which of them "development mode" refers
+			// to is not said, detail may or may not be shown
+			out.Classes = append(out.Classes, "env-changed-detail-open")
+		} else if c.Env == "development" {
 			if token == "" && !strings.Contains(strings.ToUpper(tail), "PANIC") {
 				return fail(out, "dev-detail", "development mode: body tail %q is not a panic page; %s", clip(tail), desc)
 			}
@@ -632,6 +669,8 @@ func genCase(t *rapid.T) Case {
 	c.Method = []string{"GET", "GET", "GET", "HEAD"}[rapid.IntRange(0, 3).Draw(t, "method")]
 	c.WrapWriter = rapid.IntRange(0, 4).Draw(t, "wrapwriter") == 0
 	c.ReqHdr = []string{"", "", "", "accept-json", "upgrade", "accept-html"}[rapid.IntRange(0, 5).Draw(t, "reqhdr")]
+	c.OuterWrites = c.Outer > 0 && !c.WrapWriter && rapid.IntRange(0, 4).Draw(t, "outerwrites") == 0
+	c.Twice = rapid.IntRange(0, 5).Draw(t, "twice") == 0
 	switch rapid.IntRange(0, 5).Draw(t, "site") {
 	case 0:
 		c.Site = "action"
